@@ -118,6 +118,10 @@ class Core:
             return vs
         if k == "none":
             return V(NONE, None)
+        if k == "dict" and as_ref:
+            r = new_ref()
+            st.heap[r] = V(sort, z3.Const(fresh_name(base), self.U.z3sort(sort)))
+            return VRef(r)
         if k == "tuple":
             return VTuple([self.fresh(a, f"{base}.{i}", st, as_ref=False) for i, a in enumerate(sort.args)])
         if k == "rec" and self.U.records[sort.name].mutable and as_ref:
